@@ -272,3 +272,79 @@ Section EnrichBound.
       specialize (Hb' Hin). lia.
   Qed.
 End EnrichBound.
+
+(* ------------------------------------------------------------------ no layer is empty, so the depth is attained *)
+Section Attained.
+  Variables ei eo : N -> list N.
+  Hypothesis Hsym : forall a b, In a (ei b) <-> In b (eo a).
+
+  Lemma layering_stuck : forall fuel p rem older, layering ei fuel (p :: rem) [] older = Err OutOfFuel.
+  Proof. induction fuel as [|f IH]; intros p rem older; simpl; [reflexivity|apply IH]. Qed.
+
+  Lemma layering_nonempty : forall fuel rem last older ls,
+    layering ei fuel rem last older = Ok ls ->
+    exists tail, ls = rev older ++ last :: tail /\ forall l, In l tail -> l <> [].
+  Proof.
+    induction fuel as [|f IH]; intros rem last older ls H.
+    - destruct rem; simpl in H; [|discriminate]. inversion H; subst. exists []. simpl. split; [reflexivity|intros l []].
+    - destruct rem as [|p rem0]; simpl in H.
+      + inversion H; subst. exists []. simpl. split; [reflexivity|intros l []].
+      + unfold process_layer in H. rewrite process_layer_flat in H.
+        destruct (fold_left dec_parent (flat_map ei last) (Ok (p :: rem0, []))) as [[rem' next]|e] eqn:Hp; [|discriminate].
+        destruct (fold_dec_spec _ _ _ _ _ Hp) as [_ [_ [H3 _]]].
+        destruct (IH _ _ _ _ H) as [tail [Hls Hne]].
+        exists (next :: tail). split; [rewrite Hls; simpl; rewrite <- app_assoc; reflexivity|].
+        intros l [E|Hl]; [|exact (Hne l Hl)]. subst l. intros E. subst next.
+        destruct rem' as [|p' rem''].
+        * destruct (H3 (fst p)) as [Hk|Hk]; [simpl; tauto|destruct Hk|destruct Hk].
+        * rewrite layering_stuck in H. discriminate.
+  Qed.
+
+  Lemma path_snoc : forall a y v d, path eo a y d -> In v (eo y) -> path eo a v (d + 1).
+  Proof.
+    intros a y v d H Hv. induction H as [a|a b c d Hb _ IH].
+    - replace (0 + 1) with (0 + 1) by lia. eapply path_step; [exact Hv|constructor].
+    - eapply path_step; [exact Hb|exact (IH Hv)].
+  Qed.
+
+  Lemma layered_chain : forall ls l0, layered eo (l0 :: ls) ->
+    forall a, In a (last (l0 :: ls) []) -> exists x, In x l0 /\ path eo a x (Z.of_nat (List.length ls)).
+  Proof.
+    induction ls as [|l1 r IH]; intros l0 Hlay a Ha.
+    - simpl in Ha. exists a. split; [exact Ha|constructor].
+    - destruct Hlay as [Hstep Hlay]. change (last (l0 :: l1 :: r) []) with (last (l1 :: r) []) in Ha.
+      destruct (IH l1 Hlay a Ha) as [y [Hy Hp]]. destruct (Hstep y Hy) as [v [Hv Hvy]].
+      exists v. split; [exact Hv|]. replace (Z.of_nat (List.length (l1 :: r))) with (Z.of_nat (List.length r) + 1) by (simpl List.length; lia).
+      exact (path_snoc a y v _ Hp Hvy).
+  Qed.
+
+  Lemma last_In : forall (A : Type) (l : list A) d, l <> [] -> In (last l d) l.
+  Proof.
+    intros A l d. induction l as [|x r IH]; [congruence|]. intros _. destruct r as [|y r']; [simpl; tauto|].
+    right. apply IH. discriminate.
+  Qed.
+
+  (* some chain of the component has exactly depth tasks *)
+  Theorem enrich_depth_attained : forall fuel nodes srcs c,
+    nodes <> [] -> enrich ei eo fuel (nodes, srcs) = Ok c ->
+    exists a x, In a nodes /\ path eo a x (c_depth c - 1).
+  Proof.
+    intros fuel nodes srcs c Hne H. destruct (enrich_layers ei eo _ _ _ _ H) as [layers [Hl Hd]]. rewrite Hd. clear Hd H.
+    destruct (layering_spec ei eo Hsym _ _ _ _ _ Hl) as [tail [Hls [Hlay [_ Hk2]]]]. simpl in Hls.
+    destruct (layering_nonempty _ _ _ _ _ Hl) as [tail1 [Hls1 Hnonempty]]. simpl in Hls1.
+    rewrite Hls in Hls1. inversion Hls1; subst tail1. clear Hls1. subst layers.
+    destruct tail as [|l1 r].
+    - destruct nodes as [|a0 n]; [congruence|]. exists a0, a0. split; [simpl; tauto|]. simpl. constructor.
+    - set (sinks := filter (fun v => null (eo v)) (nodes)) in *.
+      assert (Hlast : In (last (l1 :: r) []) (l1 :: r)) by (apply last_In; discriminate).
+      pose proof (Hnonempty _ Hlast) as Hne1.
+      destruct (last (l1 :: r) []) as [|a rest] eqn:El; [congruence|].
+      destruct (layered_chain (l1 :: r) sinks Hlay a) as [x [_ Hp]].
+      + change (last (sinks :: l1 :: r) []) with (last (l1 :: r) []). rewrite El. simpl. tauto.
+      + exists a, x. split.
+        * assert (Hin : In a (concat (l1 :: r))) by (apply in_concat; exists (a :: rest); split; [exact Hlast|simpl; tauto]).
+          apply Hk2 in Hin. rewrite map_map in Hin. simpl in Hin. rewrite map_id in Hin. apply filter_In in Hin. tauto.
+        * replace (Z.of_nat (List.length (sinks :: l1 :: r)) - 1) with (Z.of_nat (List.length (l1 :: r))) by (simpl List.length; lia).
+          exact Hp.
+  Qed.
+End Attained.
